@@ -75,7 +75,23 @@ func (e Env) IP4(r *rand.Rand) (netip.Addr, string) {
 func (e Env) IP6(r *rand.Rand) (netip.Addr, string) {
 	var a [16]byte
 	r.Read(a[8:])
-	switch r.Intn(8) {
+	switch r.Intn(10) {
+	case 8:
+		// IPv4-mapped (::ffff:a.b.c.d), of a LAN address or of an arbitrary one: 128 bit addresses like any other on the wire
+		x, _ := e.IP4(r)
+		return netip.AddrFrom16(netip.AddrFrom4(x.As4()).As16()), "v4mapped"
+	case 9:
+		switch r.Intn(4) {
+		case 0:
+			return netip.IPv6Loopback(), "loopback"
+		case 1:
+			a[0], a[1] = 0x20, 0x02 // 6to4
+			return netip.AddrFrom16(a), "6to4"
+		case 2:
+			return netip.MustParseAddr("ff05::1:3"), "site-multicast"
+		}
+		a = [16]byte{12: a[12], 13: a[13], 14: a[14], 15: a[15]} // IPv4-compatible (deprecated) ::a.b.c.d
+		return netip.AddrFrom16(a), "v4compat"
 	case 0:
 		return netip.IPv6Unspecified(), "zero"
 	case 1:
